@@ -21,7 +21,7 @@ ANCHORS = [("leuvenmapmatching/matcher/base.py", "BaseMatcher._match_non_emittin
            ("leuvenmapmatching/matcher/base.py", "LatticeColumn.upsert"),
            ("leuvenmapmatching/matcher/base.py", "BaseMatching.update")]
 FLOORS = {"pairs_judged": 1800, "on_run_uses_nonemitting": 500, "results_differ": 300, "both_complete": 800, "on_run_longer": 50,
-          "family:simple": 300, "family:simple_nodes": 300, "family:distance": 300, "debug_level_pairs": 400, "linked_edge_pairs": 500, "out_and_back_cases": 800, "dense_cases_more_than_100_candidates": 30}
+          "family:simple": 300, "family:simple_nodes": 300, "family:distance": 300, "family:newsonkrumm": 300, "debug_level_pairs": 400, "linked_edge_pairs": 500, "out_and_back_cases": 800, "dense_cases_more_than_100_candidates": 30}
 ASSUMPTIONS = ["both runs are instantiated from one explicit configuration dict; only `non_emitting` differs",
                "best probability compared at 1e-9*max(1,|x|)"]
 
@@ -66,15 +66,21 @@ def gen_case(rng, i, tier):
         case["debug"] = False
         case["linked_class"] = True
         return case
-    case = mcase.gen_mcase(rng, ne=False, width=False, agb=False, tighten_p=0.3, sparse_p=0.55, max_obs=9)
+    # all four matcher classes: the Newson-Krumm style scores are first-order too
+    case = mcase.gen_mcase(rng, families=gen.FAMILIES_ALL, ne=False, width=False, agb=False, tighten_p=0.3, sparse_p=0.55, max_obs=9)
     if i % 10 in (5, 9):
         # out and back over skipped nodes, observations on the nodes (see gen.gen_out_and_back_case)
         m, tr = gen.gen_out_and_back_case(rng, labels=("int", "str"))
         case["map"], case["trace"] = m, tr
         case["cfg"].update(max_dist=None, max_dist_init=None, min_prob_norm=None)
         case["cfg"]["obs_noise"] = rng.choice([1.0, 0.7, 1.3])
-        if rng.random() < 0.6:
+        r_ = rng.random()
+        if r_ < 0.5:
             case["cfg"]["family"] = "simple_nodes"
+        elif r_ < 0.7:
+            case["cfg"]["family"] = "newsonkrumm"
+            case["cfg"]["obs_noise_ne"] = rng.choice([None, 0.5, 0.25, 3.0]) if case["cfg"]["obs_noise"] >= 1.0 else None
+            case["cfg"]["max_dist_init"] = rng.choice([None, 0.6, 0.3])
         case["out_and_back"] = True
         case["debug"] = False
         return case
@@ -162,6 +168,9 @@ def check_case(ctx, case):
 _bk_gen, _bk_chk = build.backend_dimension(0.12)
 gen_case = _bk_gen(gen_case)
 check_case = _bk_chk(check_case)
+
+# no clause depends on the coordinate unit: 8 % of the planar cases are expressed in a small unit (everything x 2^-7..2^-17)
+gen_case = mcase.scale_dimension(0.08)(gen_case)
 
 TECHNIQUE = "runtime monitoring: differential monitor over sibling executions (non-emitting states off / on, one shared configuration)"
 LEVEL_TEXT = ("{Q} (quick) / {T} (thorough) pairs of real runs; the on-run must not match a shorter prefix, must not be empty alone, and for two "
